@@ -63,6 +63,7 @@ ODD = [
     'negative-size', 'size-mismatch-zero', 'ignore-and-data',
     'misc-vs-data-dup', 'manifest-self-reference',
     'bz2-garbage', 'xz-truncated', 'entry-dotdot', 'top-symlink-loop',
+    'two-timestamps', 'timestamp-in-sub-manifest',
 ]
 
 
@@ -193,6 +194,15 @@ def apply_odd(root, kind):
         append(root, 'sub/Manifest', f'MANIFEST ../Manifest 0 MD5 {MD5E}\n')
     elif kind == 'entry-dotdot':
         append(root, 'sub/Manifest', f'DATA ../a 0 MD5 {MD5E}\n')
+    elif kind == 'two-timestamps':
+        append(root, 'Manifest', 'TIMESTAMP 2017-01-01T01:01:01Z\n'
+               'TIMESTAMP 2018-02-02T02:02:02Z\n')
+        hints['profile'] = 'ebuild'
+        hints['whole_tree_update'] = True
+    elif kind == 'timestamp-in-sub-manifest':
+        append(root, 'Manifest', 'TIMESTAMP 2017-01-01T01:01:01Z\n')
+        hints['profile'] = 'old-ebuild'
+        hints['whole_tree_update'] = True
     elif kind == 'top-symlink-loop':
         os.symlink('.', os.path.join(root, 'other', 'self'))
     return hints
@@ -333,6 +343,8 @@ def run_case(desc):
                 else ''
             if ci == 0 and 'subdir' in hints:
                 sub = hints['subdir']
+            if hints.get('whole_tree_update') and c['cmd'] == 'update':
+                sub = ''
             target = os.path.join(root, sub) if sub else root
             profile = c['profile'] or hints.get('profile')
             hashes = c['hashes'] or hints.get('hashes')
